@@ -4,55 +4,76 @@
 EXTENDS Naturals, Sequences, FiniteSets
 
 CONSTANTS Thr        \* scenario thread ids
+Onces == 1..3        \* once-flags of a scenario
 
 VARIABLES st,        \* [Thr -> {"none", "launched", "running", "ended"}]
           kind,      \* [Thr -> {"manual", "managed", ""}]
           tid,       \* [Thr -> Nat]  the OS-level thread the function ran on (-1 = not yet)
           nreg, ncb, \* at-exit callbacks registered / already run
           joined,    \* [Thr -> BOOLEAN]  a manual join returned
-          mainTid
+          mainTid,
+          once       \* [Onces -> {"no", "running", "done"}]  functions handed to aws_thread_call_once
 
-tvars == <<st, kind, tid, nreg, ncb, joined, mainTid>>
+tvars == <<st, kind, tid, nreg, ncb, joined, mainTid, once>>
 
 TInit0 ==
     /\ st = [i \in Thr |-> "none"] /\ kind = [i \in Thr |-> ""] /\ tid = [i \in Thr |-> 0 - 1]
     /\ nreg = [i \in Thr |-> 0] /\ ncb = [i \in Thr |-> 0] /\ joined = [i \in Thr |-> FALSE] /\ mainTid = 0
+    /\ once = [n \in Onces |-> "no"]
 
 Launch(i, k) ==
     /\ st[i] = "none" /\ k \in {"manual", "managed"}
     /\ st' = [st EXCEPT ![i] = "launched"] /\ kind' = [kind EXCEPT ![i] = k]
-    /\ UNCHANGED <<tid, nreg, ncb, joined, mainTid>>
+    /\ UNCHANGED <<tid, nreg, ncb, joined, mainTid, once>>
 
 (* the function runs exactly once, with the argument given at launch, on a thread of its own *)
 FnRan(i, on, argok) ==
     /\ st[i] = "launched" /\ argok = 1
     /\ on # mainTid /\ \A j \in Thr : tid[j] # on
     /\ st' = [st EXCEPT ![i] = "running"] /\ tid' = [tid EXCEPT ![i] = on]
-    /\ UNCHANGED <<kind, nreg, ncb, joined, mainTid>>
+    /\ UNCHANGED <<kind, nreg, ncb, joined, mainTid, once>>
 
 AtExitReg(i, idx, rc) ==
     /\ st[i] = "running" /\ rc = 0 /\ idx = nreg[i] + 1
     /\ nreg' = [nreg EXCEPT ![i] = idx]
-    /\ UNCHANGED <<st, kind, tid, ncb, joined, mainTid>>
+    /\ UNCHANGED <<st, kind, tid, ncb, joined, mainTid, once>>
 
 FnEnd(i) ==
     /\ st[i] = "running" /\ st' = [st EXCEPT ![i] = "ended"]
-    /\ UNCHANGED <<kind, tid, nreg, ncb, joined, mainTid>>
+    /\ UNCHANGED <<kind, tid, nreg, ncb, joined, mainTid, once>>
 
 (* callbacks: after the function, on that thread, once each, in reverse order of registration *)
 AtExit(i, idx, on) ==
     /\ st[i] = "ended" /\ on = tid[i]
     /\ idx = nreg[i] - ncb[i] /\ idx >= 1
     /\ ncb' = [ncb EXCEPT ![i] = @ + 1]
-    /\ UNCHANGED <<st, kind, tid, nreg, joined, mainTid>>
+    /\ UNCHANGED <<st, kind, tid, nreg, joined, mainTid, once>>
 
 Finished(i) == st[i] = "ended" /\ ncb[i] = nreg[i]
+
+(* aws_thread_call_once: the function runs exactly once per flag, with the argument of the call that ran it; no call *)
+(* on that flag returns before the function has completed (callers that arrive meanwhile wait)                      *)
+OnceRan(n, argok) ==
+    /\ n \in Onces /\ once[n] = "no" /\ argok = 1
+    /\ once' = [once EXCEPT ![n] = "running"]
+    /\ UNCHANGED <<st, kind, tid, nreg, ncb, joined, mainTid>>
+OnceEnd(n) ==
+    /\ once[n] = "running" /\ once' = [once EXCEPT ![n] = "done"]
+    /\ UNCHANGED <<st, kind, tid, nreg, ncb, joined, mainTid>>
+OnceRet(n) == once[n] = "done" /\ UNCHANGED tvars
+
+(* what a running thread sees of itself: its id is the one its aws_thread reports (and nobody else's), the name  *)
+(* given at launch is the name it has; aws_thread_current_sleep(ns) returns no earlier than ns later             *)
+SelfView(i, ideq, idmain, named, nameok, sleptok) ==
+    /\ st[i] = "running" /\ ideq = 1 /\ idmain = 0 /\ sleptok = 1
+    /\ (named = 1 => nameok = 1)
+    /\ UNCHANGED tvars
 
 (* join of a joinable thread returns only after the function and all its callbacks completed *)
 JoinRet(i, rc) ==
     /\ kind[i] = "manual" /\ rc = 0 /\ Finished(i) /\ ~joined[i]
     /\ joined' = [joined EXCEPT ![i] = TRUE]
-    /\ UNCHANGED <<st, kind, tid, nreg, ncb, mainTid>>
+    /\ UNCHANGED <<st, kind, tid, nreg, ncb, mainTid, once>>
 
 (* join-all returns only after every managed thread has finished; the outstanding count is then zero *)
 JoinAllRet(rc, count) ==
